@@ -1,5 +1,6 @@
 From Coq Require Import ZArith NArith List Bool.
-From CL Require Import Base.Sx Base.Res Base.Str Model.AddRemove Model.Compare Model.CountWords.
+From CL Require Import Base.Sx Base.Res Base.Str Model.AddRemove Model.Compare Model.CountWords
+  Model.CompareText.
 Import ListNotations.
 Open Scope Z_scope.
 
@@ -32,7 +33,7 @@ Fixpoint flt_of (tbl : list (pykey * verdict)) (k : pykey) : verdict :=
   end.
 
 (* checker table: [[ref id; l10n id; [[error?; message id] ...]] ...], no findings otherwise *)
-Fixpoint chk_of (tbl : list (Z * Z * list finding)) (a b : @cent pykey Z) : list finding :=
+Fixpoint chk_of {V : Type} (tbl : list (Z * Z * list finding)) (a b : @cent pykey V) : list finding :=
   match tbl with
   | [] => []
   | (ra, lb, fs) :: tbl' =>
@@ -75,6 +76,21 @@ Definition dispatch (f : Z) (x : sx) : sx :=
                 (add_file (verdict_of (to_Z (nth_sx 0 x))) (to_list cent_of (nth_sx 1 x)))
   | 2 => (* isinstance(k, str) and keyRE.search(k) *)
       of_bool (py_keyname (key_of x))
+  | 4 => (* ContentComparer.compare on two .properties TEXTS:
+            [filter table; reference text; l10n text; checker table (by span start); merge; junkid] *)
+      let flt := flt_of (to_list (fun p => (key_of (nth_sx 0 p), verdict_of (to_Z (nth_sx 1 p))))
+                                 (nth_sx 0 x)) in
+      let chk := chk_of (to_list (fun p => (to_Z (nth_sx 0 p), to_Z (nth_sx 1 p),
+                                            to_list finding_of (nth_sx 2 p))) (nth_sx 3 x)) in
+      of_result
+        (fun a => L [of_list of_nat (stats_fields (a_stats a));
+                     of_list note_sx (a_notes a);
+                     of_list key_sx (a_missings a);
+                     of_list A (a_skips a);
+                     of_list note_sx (details flt a);
+                     of_list of_nat (summary flt a)])
+        (compare_properties (to_nat (nth_sx 5 x)) flt chk (to_bool (nth_sx 4 x))
+                            (to_str (nth_sx 1 x)) (to_str (nth_sx 2 x)))
   | 3 => (* Entry.count_words on a value *)
       of_result of_nat (count_words (to_str x))
   | _ => sx_err
